@@ -250,6 +250,25 @@ def check(run):
                 if nb <= 3:
                     run.fail("modifier-meaning", "%s evaluates to %r at r=%r; the same pieces composed through the Python API give %r" % (txt, b, r, a), dict(definition=txt, r=r, expression=str(desc)))
                 break
+            # what the definition OFFERS as derivatives is part of its meaning (forces are tabulated from it): same offer, same values
+            bad = None
+            for which in ("deriv", "deriv2"):
+                if hasattr(f, which) != hasattr(g, which):
+                    bad = "%s offers %s: %s, the Python-API composition: %s" % (txt, which, hasattr(g, which), hasattr(f, which))
+                    break
+                if hasattr(f, which):
+                    try:
+                        da, db = getattr(f, which)(r), getattr(g, which)(r)
+                    except (OverflowError, ZeroDivisionError, ValueError):
+                        continue
+                    if not close(da, db, 1e-9, 1e-9):
+                        bad = "%s: %s(%r) = %r; the same pieces composed through the Python API give %r" % (txt, which, r, db, da)
+                        break
+            if bad:
+                nb += 1
+                if nb <= 3:
+                    run.fail("modifier-meaning", bad, dict(definition=txt, r=r, expression=str(desc)))
+                break
     # ---- entry order ---------------------------------------------------------------------------------------------------------
     for i in range(run.n(20, 300)):
         entries = []
@@ -320,10 +339,38 @@ def check(run):
     if v != 6.0:
         run.fail("custom-form-cyclic-call-graph", "f(r,a) = g(r,a) + a ; g(r,b) = if(b > 0, f(r,b-1), 0) ; 'A-B : f 3' evaluates to %r, the formulas give 3+2+1+0 = 6" % (v,), dict(potable_file=cyc, value=v))
     # ---- (D) pymath --------------------------------------------------------------------------------------------------------------
-    table = [("acos(0.25)", math.acos(0.25)), ("atan2(5, 2)", math.atan2(5, 2)), ("ceil(4.2)", 5.0), ("copysign(3, -10)", -3.0), ("cosh(1.5)", math.cosh(1.5)), ("exp(2.5)", math.exp(2.5)),
-             ("fabs(-3.25)", 3.25), ("floor(-3.1)", -4.0), ("fmod(2.5, 2)", 0.5), ("hypot(3, 4)", 5.0), ("ldexp(3.5, 4)", 56.0), ("log(10)", math.log(10)), ("log(8, 2)", math.log(8, 2)),
-             ("log10(1000)", math.log10(1000)), ("log2(10)", math.log2(10)), ("pow(2, 5)", 32.0), ("pow(5, 2)", 25.0), ("sqrt(6.25)", 2.5), ("sin(0.5)", math.sin(0.5)), ("tanh(0.9)", math.tanh(0.9)),
-             ("trunc(5.75)", 5.0), ("degrees(3.14)", math.degrees(3.14)), ("radians(180)", math.pi), ("factorial(5)", 120.0), ("gcd(100, 15)", 5.0)]
+    table = [("acos(0.25)", math.acos(0.25)), ("ceil(4.2)", 5.0), ("cosh(1.5)", math.cosh(1.5)), ("exp(2.5)", math.exp(2.5)),
+             ("ldexp(3.5, 4)", 56.0), ("log(10)", math.log(10)), ("log(8, 2)", math.log(8, 2)),
+             ("log10(1000)", math.log10(1000)), ("log2(10)", math.log2(10)), ("sqrt(6.25)", 2.5), ("sin(0.5)", math.sin(0.5)), ("tanh(0.9)", math.tanh(0.9)),
+             ("degrees(3.14)", math.degrees(3.14)), ("radians(180)", math.pi), ("factorial(5)", 120.0), ("gcd(100, 15)", 5.0), ("fsum(0.1, 0.2, 0.3)", math.fsum([0.1, 0.2, 0.3]))]
+    # every one- and two-argument function over operands of both signs and both orders (argument order, sign conventions of fmod / copysign / atan2 / trunc / floor)
+    from atsim.potentials.config import _pymath
+    import inspect
+    for name, fn in sorted(inspect.getmembers(_pymath, inspect.isfunction)):
+        if name.startswith("_") or not hasattr(math, name):
+            continue
+        try:
+            params = inspect.signature(fn).parameters.values()
+        except (TypeError, ValueError):
+            continue
+        if any(p.kind == p.VAR_POSITIONAL for p in params):
+            continue
+        nargs = len(params)
+        pools = {1: [(0.3,), (-0.3,), (2.75,), (-2.75,), (7.5,)], 2: [(5.5, 2.0), (-5.5, 2.0), (5.5, -2.0), (-5.5, -2.0), (2.0, 5.5), (0.5, 3.0), (3.0, 0.5)]}.get(nargs, [])
+        if name in ("factorial",):
+            pools = [(4,), (6,)]
+        if name in ("gcd",):
+            pools = [(12, 18), (18, 12), (7, 5)]
+        if name in ("ldexp",):
+            pools = [(1.5, 3), (-1.5, 2), (3.0, -1)]
+        for ops in pools:
+            try:
+                v = float(getattr(math, name)(*ops))
+            except (ValueError, OverflowError, ZeroDivisionError, TypeError):
+                continue
+            if v != v or abs(v) > 1e30:
+                continue
+            table.append(("%s(%s)" % (name, ", ".join(repr(x) for x in ops)), v))
     cfg = "[Tabulation]\ntarget : LAMMPS\ncutoff : 4.0\nnr : 9\n[Potential-Form]\n" + "".join("pm%d(r) = pymath.%s + r\n" % (i, e) for i, (e, v) in enumerate(table))
     cfg += "[Pair]\n" + "".join("P%d-Q : >=0 pm%d\n" % (i, i) for i in range(len(table)))
     try:
